@@ -121,6 +121,15 @@ where
         signal_params: SignalParams,
         node_config: Arc<RaftNodeConfig>,
     ) -> Self {
+        // Term and vote must reach stable storage before a peer can observe them (a granted
+        // vote, an RPC reply): a crash must never let this node vote twice in a term or go
+        // back to an older term. Until now they were only saved when `Raft` was dropped.
+        let mut role = role;
+        let hard_state_log = storage.raft_log.clone();
+        role.state_mut().shared_state_mut().set_hard_state_persister(Arc::new(
+            move |hard_state| hard_state_log.save_hard_state(hard_state),
+        ));
+
         let ctx = Self::build_context(
             node_id,
             storage,
